@@ -273,6 +273,9 @@ func (s *State) evalInternal(node any) object.Object { //nolint:funlen,gocognit,
 		if node.Token.Type() == token.BITOR && left.Type() == object.STRING && node.Right.Value().Type() == token.LPAREN {
 			return s.evalPipe(left, node.Right)
 		}
+		if left.Type() == object.REGISTER && !isLeaf(node.Right) {
+			left = object.CopyRegister(left) // the right side may write the variable: a + (a = 5) is 3 + 5 when a is 3.
+		}
 		right := s.Eval(node.Right)
 		if right.Type() == object.ERROR {
 			return right
@@ -1209,6 +1212,15 @@ func (s *State) evalForExpression(fe *ast.ForExpression) object.Object {
 			}
 		}
 	}
+}
+
+// isLeaf is true for the nodes whose evaluation can't have a side effect (names and literals).
+func isLeaf(node ast.Node) bool {
+	switch node.(type) {
+	case *object.Register, *ast.Identifier, *ast.IntegerLiteral, *ast.FloatLiteral, *ast.StringLiteral, *ast.Boolean:
+		return true
+	}
+	return false
 }
 
 func isComment(node ast.Node) bool {
